@@ -58,14 +58,23 @@ theorem ribRegister_char (st : St) (ext : Ext) (f : Nat) (name : Name) (p : Para
       cases hn : a.name with
       | none => simp [r400, hn]
       | some n =>
-        cases hf : a.faceId with
-        | none => simp [explicitFace, hf, Agrees, effect, pickFace_eq, tablesOf, hn]
-        | some x =>
-          by_cases hx : x = 0
-          · simp [explicitFace, hf, hx, Agrees, effect, pickFace_eq, tablesOf, hn]
-          · by_cases he : (faceGet st.faces x).isSome = true
-            · simp [explicitFace, hf, hx, he, Agrees, effect, pickFace_eq, tablesOf, hn]
-            · simp [explicitFace, hf, hx, he, tablesOf, hn]
+        by_cases hex : expOk a.exp = true
+        · cases hf : a.faceId with
+          | none => simp [explicitFace, hf, hex, Agrees, effect, pickFace_eq, tablesOf, hn]
+          | some x =>
+            by_cases hx : x = 0
+            · simp [explicitFace, hf, hx, hex, Agrees, effect, pickFace_eq, tablesOf, hn]
+            · by_cases he : (faceGet st.faces x).isSome = true
+              · simp [explicitFace, hf, hx, he, hex, Agrees, effect, pickFace_eq, tablesOf, hn]
+              · simp [explicitFace, hf, hx, he, tablesOf, hn]
+        · cases hf : a.faceId with
+          | none => simp [explicitFace, hf, hex, hn, r400]
+          | some x =>
+            by_cases hx : x = 0
+            · simp [explicitFace, hf, hx, hex, hn, r400]
+            · by_cases he : (faceGet st.faces x).isSome = true
+              · simp [explicitFace, hf, hx, he, hex, tablesOf, hn, r400]
+              · simp [explicitFace, hf, hx, he, hex, tablesOf, hn]
   · simp [hp, r400]
 
 theorem ribUnregister_char (st : St) (ext : Ext) (f : Nat) (name : Name) (p : Params) :
@@ -646,7 +655,7 @@ theorem effect_usable (t : Tables) (f : Nat) (v : Verb) (hasP : Bool) (a : Args)
             split at hv <;> (try split at hv) <;> (try split at hv) <;> simp_all
           have hm64 : 64 ≤ m := by
             unfold mtuClass specMaxOverhead specMinMtu at this
-            by_cases h1 : m ≤ 56
+            by_cases h1 : m ≤ 60
             · simp [h1] at this
             · by_cases h2 : m < 64
               · simp [h1, h2] at this
